@@ -224,7 +224,9 @@ C09 == NoBad("C09") /\ Cardinality(oAcc) <= Cap
 C10 == /\ (oOrder # <<>> /\ RPend # {}) => \E r \in RPend : RHas(r)
        /\ \A s \in SPend : (oSVal[s] \notin oIn \/ Stored(oOrder, oSVal[s])) => SHas(s)
        /\ oClosed => (\A r \in RPend : RHas(r)) /\ (\A s \in SPend : SHas(s))
-C11 == NoBad("C11")
+\* C11: step checks, plus: once the channel is closed (explicitly or by the last handle of a side)
+\* every pending future has been woken
+C11 == NoBad("C11") /\ (oClosed => (\A r \in RPend : RHas(r)) /\ (\A s \in SPend : SHas(s)))
 C17 == NoBad("C17")
 C18 == NoBad("C18")
 =============================================================================
